@@ -2560,6 +2560,38 @@ where
         true
     }
 
+    /// Packets restored while the protocol version was still undetermined could not be
+    /// checked against it. Once the version is adopted, entries of the other version are
+    /// dropped together with their packet IDs, exactly as restore_packets() skips them on a
+    /// connection whose version is known.
+    fn drop_stored_packets_of_other_version(&mut self) {
+        let version = self.protocol_version;
+        let mut dropped = Vec::new();
+        self.store.for_each(|packet| {
+            let entry_version = match packet {
+                GenericStorePacket::V3_1_1Publish(_) | GenericStorePacket::V3_1_1Pubrel(_) => {
+                    Version::V3_1_1
+                }
+                GenericStorePacket::V5_0Publish(_) | GenericStorePacket::V5_0Pubrel(_) => {
+                    Version::V5_0
+                }
+            };
+            if entry_version == version {
+                return true;
+            }
+            dropped.push(packet.packet_id());
+            false
+        });
+        for packet_id in dropped {
+            self.pid_puback.remove(&packet_id);
+            self.pid_pubrec.remove(&packet_id);
+            self.pid_pubcomp.remove(&packet_id);
+            if self.pid_man.is_used_id(packet_id) {
+                self.pid_man.release_id(packet_id);
+            }
+        }
+    }
+
     #[rustfmt::skip]
     fn can_receive(&self, packet_type: u8) -> bool {
         !((Role::IS_CLIENT &&
@@ -2755,10 +2787,12 @@ where
                             // Protocol Version
                             4 => {
                                 self.protocol_version = Version::V3_1_1;
+                                self.drop_stored_packets_of_other_version();
                                 events.extend(self.process_recv_v3_1_1_connect(raw_packet));
                             }
                             5 => {
                                 self.protocol_version = Version::V5_0;
+                                self.drop_stored_packets_of_other_version();
                                 events.extend(self.process_recv_v5_0_connect(raw_packet));
                             }
                             _ => {
